@@ -1,5 +1,8 @@
 /-
-  C17 — GMX v1, the one place where the 35-digit Decimal arithmetic of the code changes a fee: the capped tax branch.
+  C17 — GMX v1, the capped tax branch under the 35-digit Decimal arithmetic of the code.  (It is NOT the only place where
+  rounding changes a fee: the uncapped tax branch and the rebate branch floor / subtract rounded quotients too — e.g. 54 bp
+  instead of 55 bp for initial difference 0, next difference = target = 33333333333333333333333333333333334; every branch is
+  covered, for any rounding error ≤ 1/1000, by Proofs/C17/V1RoundAny.lean (range) and V1RoundDiff.lean (≤ 1 bp from exact).)
 
   `get_fee_basis_points` computes, when the average deviation exceeds the target, `int(60 * target / target)` on
   Decimals: the product `60·T` is rounded to 35 digits, divided by `T`, rounded again, truncated.  In exact arithmetic the
